@@ -63,6 +63,10 @@ func AllowUnbuffered(ch interface{})                            { panic("intrins
 // virtual time moves only when every coroutine is blocked.  Natively a no-op.
 func Goroutines() { panic("intrinsic") }
 
+// RealTime (native only) switches the regenerated time seam to the wall clock for harnesses that
+// run the real goroutine structure; inside the engine time is virtual anyway.
+func RealTime() { panic("intrinsic") }
+
 // Quiesce lets the other goroutines run until all of them are blocked at the
 // current virtual time (natively: a short real sleep).
 func Quiesce() { panic("intrinsic") }
